@@ -7,6 +7,8 @@ cd /verif
 for d in seeded/*/; do
   name=$(basename $d)
   id=$(python3 -c "import json;print(json.load(open('$d/meta.json'))['property'])")
+  st=$(python3 -c "import json;print(json.load(open('$d/meta.json')).get('status','active'))")
+  [ "$st" = "neutralised" ] && { echo "$name: skipped (neutralised by a later fix, see meta.json)"; continue; }
   git -C /repo apply /verif/$d/patch.diff || { echo "$name: patch does not apply"; continue; }
   out=$(./check $id --tier $tier 2>&1); rc=$?
   git -C /repo checkout -- .
